@@ -553,7 +553,13 @@ type chainPtr struct {
 	Next *chainPtr
 }
 
-var recTypeKinds = []string{"long-chains", "tree", "dict", "cyclic-slice", "cyclic-array", "struct-field", "map-of-pointers", "tree-first-used-concurrently", "shared-pointer-to-a-slice-of-a-named-byte-type"}
+type namedStr string
+type namedAny interface{}
+type namedStrPair struct{ A, B *namedStr }
+type namedAnyPair struct{ A, B *namedAny }
+
+var recTypeKinds = []string{"long-chains", "tree", "dict", "cyclic-slice", "cyclic-array", "struct-field", "map-of-pointers", "tree-first-used-concurrently", "shared-pointer-to-a-slice-of-a-named-byte-type",
+	"long-list-points-to-itself", "pointers-to-named-types-after-top-level-use"}
 
 func checkRecType(kind string, res *result) {
 	type tc struct {
@@ -691,13 +697,98 @@ func checkRecType(kind string, res *result) {
 			}
 			return ""
 		}})
+	case "long-list-points-to-itself":
+		// a []interface{} one of whose elements is a pointer to the list, longer than any first allocation the
+		// decoder makes on the strength of a count (it grows while it is read): the back-reference is resolved
+		// before its target is complete, and must see the complete list all the same. Lengths around the
+		// growth steps, the reference at the head, in the middle and at the end.
+		for _, n := range []int{2, 16, 17, 1000, 16384, 16385, 32768, 32769, 50000, 200001} {
+			for _, at := range []int{0, n / 2, n - 1} {
+				n, at := n, at
+				cases = append(cases, tc{fmt.Sprintf("s := make([]interface{}, %d); s[%d] = &s", n, at), func() interface{} {
+					s := make([]interface{}, n)
+					for i := range s {
+						s[i] = i
+					}
+					s[at] = &s
+					return &s
+				}, func() interface{} { return new(*[]interface{}) }, func(_, got interface{}) string {
+					l := *got.(**[]interface{})
+					if l == nil || len(*l) != n {
+						return fmt.Sprintf("decoded a list of %d elements", len(*l))
+					}
+					var inner []interface{}
+					switch x := (*l)[at].(type) {
+					case *[]interface{}:
+						inner = *x
+					case []interface{}:
+						inner = x
+					default:
+						return fmt.Sprintf("element %d is a %T", at, x)
+					}
+					if len(inner) != n {
+						return fmt.Sprintf("the list has %d elements, its element %d (a reference to the list itself) is a list of %d elements", n, at, len(inner))
+					}
+					for _, i := range []int{0, n / 3, n - 1} {
+						if i != at && (inner[i] != i || (*l)[i] != i) {
+							return fmt.Sprintf("element %d is %v in the list and %v in its reference to itself", i, (*l)[i], inner[i])
+						}
+					}
+					if _, ok := inner[at].(*[]interface{}); !ok {
+						if _, ok := inner[at].([]interface{}); !ok {
+							return fmt.Sprintf("element %d of the reference is a %T", at, inner[at])
+						}
+					}
+					return ""
+				}})
+			}
+		}
+	case "pointers-to-named-types-after-top-level-use":
+		// which decoder a *T gets depends on whether T has been decoded on its own before (the registered
+		// element decoder is preferred to the specialised pointer decoder): the named types are used at top
+		// level first, as T and as *T, then two pointers to equal values (the second is written as a reference)
+		warm := func(v, dest interface{}) {
+			b, _ := hio.Formatter{}.Marshal(v)
+			hio.Formatter{}.Unmarshal(b, dest)
+		}
+		for _, text := range []string{"hello", "\xff\xfe", "", "é"} {
+			text := text
+			cases = append(cases, tc{fmt.Sprintf("struct{A, B *namedStr}{&%q, &%q}", text, text), func() interface{} {
+				x, y := namedStr(text), namedStr(text)
+				warm(x, new(namedStr))
+				warm(&x, new(*namedStr))
+				return namedStrPair{&x, &y}
+			}, func() interface{} { return new(namedStrPair) }, func(_, got interface{}) string {
+				g := got.(*namedStrPair)
+				if g.A == nil || g.B == nil || string(*g.A) != text || string(*g.B) != text {
+					return fmt.Sprintf("decoded %v %v", g.A, g.B)
+				}
+				return ""
+			}})
+			cases = append(cases, tc{fmt.Sprintf("struct{A, B *namedAny}{&%q, &%q}", text, text), func() interface{} {
+				var x, y namedAny = text, text
+				warm(x, new(namedAny))
+				warm(&x, new(*namedAny))
+				return namedAnyPair{&x, &y}
+			}, func() interface{} { return new(namedAnyPair) }, func(_, got interface{}) string {
+				g := got.(*namedAnyPair)
+				if g.A == nil || g.B == nil {
+					return fmt.Sprintf("decoded %v %v", g.A, g.B)
+				}
+				// (text that is not UTF-8 comes into an interface as bytes: C01's normalisation)
+				if a, b := fmt.Sprintf("%s", *g.A), fmt.Sprintf("%s", *g.B); a != text || b != text {
+					return fmt.Sprintf("decoded %q %q", a, b)
+				}
+				return ""
+			}})
+		}
 	case "map-of-pointers":
 		leaf := &recPTree{}
 		cases = append(cases, tc{"PTree{a: &PTree{b: leaf}, c: leaf}", func() interface{} { return recPTree{"a": &recPTree{"b": leaf}, "c": leaf} }, func() interface{} { return new(recPTree) }, deep})
 	}
 	for _, c := range cases {
 		for _, simple := range []bool{false, true} {
-			if simple && (kind == "cyclic-slice" || kind == "cyclic-array") {
+			if simple && (kind == "cyclic-slice" || kind == "cyclic-array" || kind == "long-list-points-to-itself") {
 				continue // a cycle has no finite unfolding (see valuecycle)
 			}
 			orig := c.value()
